@@ -15,6 +15,19 @@ CHECKS={
    ref="DESIGN.md §5 C05",
    note="Bound: pool blocks, <=3 blocks per document, single rewrites (+ all-positions rewrites). Free text is left alone as the property says. Crashing runs are left to C01.",
    technique=T_MC+"bounded-exhaustive enumeration of documents x rewrites (metamorphic oracle), sharded over worker processes"),
+ "C10":dict(engine="E-DOC",
+   text="Bounded-exhaustive: every closed selection of <=2 (quick) / <=3 (thorough) pool blocks with <=5 / <=6 top-level declarations (self-delimiting rendering), ALL permutations of the declarations; oracle = verdict invariant and every catalog entry byte-identical (collections compared by key).",
+   ref="DESIGN.md §5 C10",
+   note="Bound: pool blocks (reference chains type->type->enum, allOf chains of depth 2, tags and macros used before definition), <=6 declarations. One open finding (allOf ancestor in usedUserTypes, pinned both ways by the repository's own fixtures) is listed in known_findings.jsonl by a signature that matches only that pattern.",
+   technique=T_MC+"bounded-exhaustive enumeration of documents x all permutations (metamorphic oracle)"),
+ "C20":dict(engine="E-DOC",
+   text="Bounded-exhaustive: every accepted closed selection of <=2 / <=3 pool blocks x 11 fresh declarations x every insertion point, and deletion of every unreferenced declaration; oracle = accepted, and the keyed entry maps differ by exactly the new/removed entries (tag back-reference lists compared modulo the added/removed interaction id).",
+   ref="DESIGN.md §5 C20", note="Bound: pool blocks and the 11 fresh declarations. Crashing runs are left to C01.",
+   technique=T_MC+"bounded-exhaustive enumeration of documents x insertions/deletions (differential oracle)"),
+ "C07":dict(engine="E-DOC",
+   text="Bounded-exhaustive: every PASTE host x every macro body admitted there x definition before/after use x nesting depth 1..3 x explicit/implicit host context x pasted once/twice, pool documents with macros, and ALL paste graphs over <=4 macros (2^16 edge sets) x definition order x used/unused; oracle = accepted => inlined document accepted with byte-identical JSON, unused macro contributes nothing, every cyclic / undefined / duplicate case rejected without crash (a dying worker process is a violation).",
+   ref="DESIGN.md §5 C07", note="Bound: <=4 macros in a graph, nesting depth <=3, body alphabet of the hosts. The converse (inlining accepted => macro form accepted) is not stated by the property and only counted.",
+   technique=T_MC+"bounded-exhaustive enumeration of paste graphs and paste placements (reference inliner as the model), crash-isolated workers"),
 }
 ENGINES=[
  {"name":"E-SCAN","path":"internal/escan","serves_properties":["C14"],"kind_free_text":"explicit-state BFS over the real scanner.Next with a per-byte hook; abstract key cross-checked by second representatives"},
